@@ -16,6 +16,12 @@ CLAIMED = {
             'on every abstract path for all 256 first bytes (both readers and helpers), array end guards agree with IsEnd(). Hangs, arithmetic '
             'UB and the CSV scanner are not decided.',
             'may-throw closure + call-graph SCCs + taint-to-sink flow + guard domination by abstract interpretation over the first-byte domain', '§5 C02'),
+    'C03': ('other',
+            'Structural necessary conditions of order-independent field loading: failure results of positioning/refill calls are consumed, '
+            'seekg after EOF is preceded by clear(), single-value wrappers store only on a loaded path and return that result, validators get '
+            'the real result, the MsgPack object scope keeps item accounting (keys+values consumed == 2 x pairs accounted, modulo the pending '
+            'key) on every CFG path with helper summaries, and the stream window keeps its logical position. Which value a key maps to is not decided.',
+            'CFG path enumeration with typestate (pending key) and balance events, interprocedural helper summaries; linear window analysis', '§5 C03'),
     'C04': ('other',
             'Value-flow of arithmetic stores by clang cast kinds and types in every instantiated value loader (no narrowing / sign-changing / '
             'int-float cast reaches a load target), handler discipline of ConvertByPolicy and of the three other policy mappers, success-flag '
@@ -59,6 +65,11 @@ CLAIMED = {
             'above U+10FFFF): nothing decoded is emitted, the error is counted once and marked or reported at its start; every input read is '
             'bounds-guarded and every iteration advances. First sequence of the input only.',
             'decision tables by abstract interpretation over interval classes + iterator typestate (guard domination)', '§5 C12'),
+    'C18': ('other',
+            'Every container/wrapper loader carries its stale-state eliminator on every normal CFG path of every load instantiation '
+            '(final resize(counter) with one increment per element load; clear() before insertion; clear iff Clean; reset only on the '
+            'not-loaded path; assign; size-mismatch throw) and the map load modes have no forbidden effect. Final values are not decided.',
+            'CFG path enumeration (event order / counting) + effect rules per switch case', '§5 C18'),
     'C19': ('proof',
             'Exhaustive audit of shared state: every static-storage object of the library is immutable or a tabled registry written only '
             'during static initialisation; save paths never mutate the source; hence every shared access from concurrent operations is a '
